@@ -10,7 +10,8 @@ import SqVerif.Drive.Util
              INFOS = `a,b,..;a,b,..` or `-`
              instr = mnemonic operands..., registers as R3 C0 Q1 M2, array entries as `ADDR IDX` with
                      IDX = `#3` or a register, e.g. `store R0 1 #3`, `load R1 0 R2`, `beq R0 R1 7`, `rot Q0`
-   out: HALT | replies | ops | um | used | qubitList | held | inbox | leaked | regs | arrays   (dicts sorted by key)
+   out: HALT | replies | ops | um | used | qubitList | held | inbox | leaked | stale request keys | response stuck? | regs | arrays
+        (dicts sorted by key)
         or `bad-op` -/
 namespace SqVerif.Drive.NqExec
 open SqVerif.NqExec SqVerif.Drive
@@ -129,8 +130,11 @@ def showState (s : St CQ) : String :=
   let regs := ",".intercalate ((sortBy (fun a b => a.1 < b.1) s.cl.regs).map fun e => regName e.1 ++ "=" ++ toString e.2)
   let arrs := ";".intercalate ((sortBy (fun a b => a.1 < b.1) s.cl.arrays).map fun e =>
     toString e.1 ++ "=[" ++ ",".intercalate (e.2.map showOpt) ++ "]")
+  let keyStr (k : Bool × Int × Int) : String := (if k.1 then "c:" else "r:") ++ toString k.2.1 ++ ":" ++ toString k.2.2
+  let stale := ",".intercalate ((sortBy (· < ·) (s.stale.map keyStr)).eraseDups)
   "um=" ++ um ++ " | used=" ++ used ++ " | ql=" ++ ql ++ " | held=" ++ toString s.q.node.held.length
     ++ " | inbox=" ++ toString s.q.node.inbox.length ++ " | leaked=" ++ toString s.q.leaked
+    ++ " | stale=" ++ stale ++ " | stuck=" ++ bit s.broken
     ++ " | regs=" ++ regs ++ " | arrays=" ++ arrs
 
 def showOut (o : RunOut CQ) : String :=
